@@ -495,6 +495,35 @@ fn duplicate_key_family(rep: &mut Report, tier: Tier) {
     rep.absorb(t);
 }
 
+/// Navigation on pumped documents: long arrays, many distinct keys, many duplicates of one
+/// key, long strings and keys (code-map indices and skip loops beyond u8 / u16 ranges).
+fn pumped_documents(rep: &mut Report, tier: Tier) {
+    use refmodel::pump::{thresholds, Family, FAMILIES};
+    let mut items = Vec::new();
+    for f in FAMILIES {
+        let cap = match f {
+            Family::Array | Family::NestedArray => tier.pick(1025, 4097),
+            Family::DistinctKeys | Family::DistinctLongKeys => tier.pick(513, 2049),
+            Family::DuplicateKey | Family::InterleavedDuplicates => tier.pick(257, 1025),
+            _ => 4097,
+        };
+        for n in thresholds(cap) {
+            items.push((f, n));
+        }
+    }
+    let count = items.len();
+    let t = explore::par_tally(items, |(f, n), t| {
+        let v = f.build(n);
+        // wrapped so that the pumped container sits at a non-zero offset after a sibling
+        let text = format!("[{{\"pre\":[1,2]}},{}, \"post\"]", refmodel::print::compact(&v));
+        check_document(&text, t);
+        t.nontrivial(&(format!("{f:?}"), n));
+        t.outcome(&format!("pumped:{f:?}"));
+    });
+    rep.bounds["pumped-documents"] = json!({"documents": count, "caps": "arrays 1025/4097, distinct keys 513/2049, duplicates 257/1025, strings 4097"});
+    rep.absorb(t);
+}
+
 pub fn run(rep: &mut Report, tier: Tier) {
     // all documents of the token trees
     let vis = |n: &Node, t: &mut Tally| {
@@ -554,6 +583,7 @@ pub fn run(rep: &mut Report, tier: Tier) {
         }
     }
     duplicate_key_family(rep, tier);
+    pumped_documents(rep, tier);
     conversions(rep, tier);
     rep.rule = "every accepted document of the token trees (all token sequences up to the bound: nested arrays and objects, empty containers in every position, duplicate and escaped keys, whitespace): a table index -> fragment address is built from traverse(); get_fragment, iter_mapped on every array and object, the eight mapped key lookups for every key and one absent key, volume and count are compared with it, and the span stored at every returned offset is cut out of the source and re-parsed; conversions: every nested-array / map shape up to a bound with a wrong-kind value planted at every position; non-trivial = distinct documents".into();
     rep.assumptions.push("relies on C05 (code map exact) for the meaning of spans; pointer identity is used to identify fragments".into());
